@@ -13,6 +13,43 @@ EXPLANATION = (
     "the yielded sequence for all trees/option combinations, sibling order, exactly-once, termination and LinkLooping detection (runtime values).")
 
 
+def loop_detect(rep, F, cg):
+    from mir import callee_of
+    from panics import known_facts, skey_call
+    rep.rule('LOOP-DETECT', 'the LinkLooping error in EntriesIter::process is raised exactly under is_symlink(entry) && self.iters.iter().any(|x| x.path() == entry.path()): '
+             'the followed link is compared against the paths of the directories currently on the iterator stack (anchor: loop detection against the iterator stack)')
+    fn = '<sys::fs::entries::EntriesIter>::process'
+    if fn not in F.bodies:
+        rep.add('LOOP-DETECT', 'loopdetect:anchor', '%s exists' % fn, False, detail='anchor missing')
+        return
+    B = cg.body(fn)
+    sites = [i for i, t in B.calls() if (callee_of(t) or '').endswith('PathError>::link_looping')]
+    ok = bool(sites)
+    why = []
+    for i in sites:
+        facts = known_facts(B, i)
+        anyf = [d for d, tr in facts if tr and d.startswith('any(') and 'iters' in d]
+        sym = [d for d, tr in facts if tr and d.startswith('is_symlink(')]
+        if not anyf or not sym:
+            ok = False
+            why.append('the LinkLooping exit at %s is not guarded by is_symlink(entry) && any(self.iters ..): guarded by %s' % (B.loc(i), [d for d, tr in facts if tr]))
+    # the closure given to any() compares the stacked iterator's path with the entry's path
+    cl_ok = False
+    for n in F.bodies:
+        if n.startswith(fn + '::{closure'):
+            C = cg.body(n)
+            ks = [skey_call(C, t) for i, t in C.calls()]
+            if any(k.startswith('eq(path(') and 'upvar' in k or k.startswith('eq(path(arg2),path(') for k in ks) and any(k.startswith('path(arg2)') for k in ks):
+                callees = [callee_of(t) or '' for i, t in C.calls()]
+                if any(c.endswith('EntryIter>::path') for c in callees) and any(c.endswith('Entry>::path') or c.endswith('Entry::path') for c in callees):
+                    cl_ok = True
+    if not cl_ok:
+        ok = False
+        why.append('no closure in process compares EntryIter::path(x) with Entry::path(entry) for equality')
+    rep.add('LOOP-DETECT', 'loopdetect:process', 'link loops are detected against the stack of directories being iterated', ok, '%s:%d' % (B.file, B.line),
+            '' if ok else '; '.join(why) + ' — a link cycle through another followed link is not detected and traversal does not terminate')
+
+
 def run(rep, F, ctx):
     A = locks.LockAnalysis(F)
     cg = A.cg
@@ -22,6 +59,7 @@ def run(rep, F, ctx):
     t = engine.load_table('setters.json')
     setters.setter(rep, F, cg, {k: v for k, v in t.items() if k.startswith('<sys::fs::entries::Entries>')})
     p_C04.snapshot(rep, F, A)
+    loop_detect(rep, F, cg)
     return engine.finish(
         rep, 'other', EXPLANATION,
         assumptions=['the builder / chain tables transcribe the documented behaviour of each builder and of the six listing helpers'],
